@@ -71,13 +71,27 @@ Fixpoint tensor_sum (cf : Z -> K) (ds : list dimn) (xs : list K) (ks : list nat)
 Definition spline_spec (t : table) (xs : list K) (ks : list nat) : K :=
   tensor_sum (coef t) (dims t) xs ks 0 one.
 
-(* the magnitude of the summed terms, for the measured rounding bound: same sum with |.| *)
+(* the magnitude of the summed terms, for the measured rounding bound: the same sums with every term
+   replaced by its absolute value (inside the derivative formula too) *)
 Definition absK (a : K) : K := if ltb a zero then opp a else a.
+Fixpoint dBabs (kn : Z -> K) (side : bool) (k : nat) (n : nat) (i : Z) (x : K) : K :=
+  match k with
+  | O => absK (Bfun kn side n i x)
+  | S k1 =>
+      match n with
+      | O => zero
+      | S n1 =>
+          let nz := Z.of_nat n in
+          mul (ofZ nz)
+              (add (wdiv (dBabs kn side k1 n1 i x) (absK (sub (kn (i + nz)) (kn i))))
+                   (wdiv (dBabs kn side k1 n1 (i + 1) x) (absK (sub (kn (i + nz + 1)) (kn (i + 1))))))
+      end
+  end.
 Fixpoint tensor_abs (cf : Z -> K) (ds : list dimn) (xs : list K) (ks : list nat) (pos : Z) (pr : K) : K :=
   match ds, xs, ks with
   | d :: ds', x :: xs', k :: ks' =>
       sum_range (fun i =>
-                   let b := absK (dBfun (d_kn d) (side_of d x) k (d_order d) i x) in
+                   let b := dBabs (d_kn d) (side_of d x) k (d_order d) i x in
                    if eqbK b zero then zero
                    else tensor_abs cf ds' xs' ks' (pos + i * d_stride d) (mul pr b))
                 0 (Z.to_nat (d_naxes d))
